@@ -137,7 +137,11 @@ def check_step(ctx, kind, st):
             if st.after != st.before:
                 ctx.disagree(R, "save on an object without tags changed the file", data)
             return
-        fw = frames_of(st.after)
+        try:
+            fw = frames_of(st.after)
+        except W.Bad as e:
+            ctx.disagree(R, "save: the ID3v2 tag of the saved file cannot be walked (%s)" % str(e).split(":")[-1].strip()[:40], data)
+            return
         if fw is None:
             ctx.disagree(R, "save: no ID3v2 tag at the start of the saved file", data)
             return
@@ -239,8 +243,14 @@ def extra_layouts(ctx, st, data0):
         audio = rand_payload(rng)
         v1 = rand_v1(rng)
         if valid:
-            audio = b"\xff\xfb\x90\x64" + bytes(rng.choice([0x00, 0x55, 0x54]) for _ in range(rng.choice([127, 128, 140, 1000])))
+            audio = b"\xff\xfb\x90\x64" + bytes(rng.choice([0x00, 0x55, 0x54]) for _ in range(rng.choice([0, 1, 20, 127, 128, 140, 1000])))
             v1 = rng.choice([None, b"TAG" + bytes(rng.choice([0x00, 0x20, 0x41]) for _ in range(125))])
+            if rng.random() < 0.2:
+                # a trailing APEv2-like block: footer preamble 32 bytes before the end, TAG 128 bytes before the end
+                tail = bytearray(b"\x01" * 200); tail[-128:-125] = b"TAG"; tail[-32:-24] = b"APETAGEX"
+                audio, v1 = audio + bytes(tail), None
+        if rep == 0 and rng.random() < 0.3:
+            audio, v1 = bytes(rng.choice([0x00, 0x55]) for _ in range(rng.choice([0, 0, 4, 20]))), None
         r = ctx.model.call("id3f_build", "none" if tagdesc is None else "%s/%s/%s/%s" % (zs(tagdesc[0]), zs(tagdesc[1]), hx(tagdesc[2]), zs(tagdesc[3])),
                            hx(audio), "none" if v1 is None else hx(v1))
         if not r.startswith("ok "):
@@ -267,6 +277,11 @@ def extra_layouts(ctx, st, data0):
         if rng.random() < 0.4:
             k = rng.choice([100, 117, 118, 119, 120, 121, 122, 123, 124, 125, 126, 127, 128, 130])
             t.add(PRIV(owner="o", data=rng.choice([b"TAG", b"APETAGEX", b"xTAG"]) + bytes([0x78]) * k))
+        if rep == 0 and len(f0) < 100 and v1 is None:
+            # aimed at the ID3v1 search window: only frame data with TAG 124..128 bytes before the end of the saved file
+            t = ID3()
+            t.add(PRIV(owner="o", data=b"TAG" + bytes([0x78]) * (125 - len(audio) - rng.choice([0, 0, 1, 4]))))
+            mode_name = "zero"
         # the frame bytes of this object: saved in front of 200 zero bytes (an empty or short file would let the
         # ID3v1 search look into the new tag itself, see oracles())
         b0 = io.BytesIO(bytes(200))
@@ -305,6 +320,9 @@ def extra_layouts(ctx, st, data0):
                          dict(d1, model=[zp(parts2[-2]), zp(parts2[-1])], impl=list(log[0][:2])))
         if exc is not None:
             ctx.count("id3f:layout-save-raises-" + exc[1])
+        if len(f1) > LIMIT:
+            ctx.count("id3f:layout-result-too-large")
+            continue
         # ---- what the theorems promise on well-formed layouts
         wf0 = ctx.model.call("id3f_wf", hx(f0)) == "ok 1"
         if wf0:
@@ -325,7 +343,18 @@ def extra_layouts(ctx, st, data0):
                         ctx.disagree(R, "layout save: payload between the tags changed (C02 theorem instance)", d1)
                 if ctx.model.call("id3f_load", hx(f1)) != "ok " + hx(frames):
                     ctx.disagree(R, "layout save: independent reader does not return the frames (C01 theorem instance)", d1)
-        # ---- module-level delete
+        # ---- module-level delete of what was just saved, and of the layout itself
+        if exc is None:
+            b = io.BytesIO(f1)
+            exc3 = None
+            try:
+                id3_delete(b)
+            except mutagen.MutagenError as e:
+                exc3 = ("MutagenError", type(e).__name__)
+            except ValueError as e:
+                exc3 = ("OTHER", "ValueError")
+            ctx.corr_cases += 1
+            compare(ctx, "delete after layout save", ctx.model.call("id3f_delete", hx(f1)), b.getvalue(), exc3, d1)
         b = io.BytesIO(f0)
         exc2 = None
         try:
@@ -390,6 +419,16 @@ def oracles(ctx, kind, st):
     if key in _oracles_done:
         return
     _oracles_done.add(key)
+    try:
+        _oracles(ctx, kind, st)
+    except Exception as e:
+        import traceback
+        ctx.violation("oracle", "C03 ID3: regression scenario of the id3f family raised %s" % type(e).__name__,
+                      {"class": "id3f-oracle-raised", "runner": "fam.id3f.oracle", "property": "C03", "kind": kind.name,
+                       "trace": traceback.format_exc()[-500:]})
+
+
+def _oracles(ctx, kind, st):
     from mutagen.id3 import ID3, TIT2, PRIV
     audio = b"\xff\xfb\x90\x64" + bytes(413)
     # ---- C02: TAG inside a trailing APEv2 tag, 128 bytes before the end of the file
